@@ -30,7 +30,7 @@ For each of A and B:
  1. Start from a clean tree (`git -C {wt} checkout -- . && git -C {wt} status --short` shows nothing under src/).
  2. Make the change under `{wt}/src`.
  3. Check it compiles and the existing suite still passes: `cd {wt} && cargo test --offline --no-fail-fast 2>&1 | grep -E "^test result|FAILED"` must show 2 passed in the unit tests and 69 passed / 1 failed in `tests/it` — the single failing test `functions::test_to_serde_json` fails on the unchanged tree too and must be the ONLY failure.
- 4. Write a demonstration as a stand-alone integration test file `{wt}/tests/seed_{{A|B}}.rs` that uses only the public API of the `jsonb` crate (e.g. `jsonb::parse_value`, `jsonb::from_slice`, `jsonb::to_string`, `jsonb::compare`, `jsonb::jsonpath::parse_json_path`, `jsonb::keypath::parse_key_paths`, `jsonb::Value`, `jsonb::Number`, …), states in a comment which clause of the property it checks, and FAILS with your change but PASSES on the unchanged tree. Run it both ways: `cargo test --offline --test seed_A` with the change applied (must fail) and after `git stash` / `git checkout -- src` (must pass).
+ 4. Write a demonstration as a stand-alone integration test file `{wt}/tests/seed_{{A|B}}.rs` that uses only the public API of the `jsonb` crate (e.g. `jsonb::parse_value`, `jsonb::from_slice`, `jsonb::to_string`, `jsonb::compare`, `jsonb::jsonpath::parse_json_path`, `jsonb::keypath::parse_key_paths`, `jsonb::Value`, `jsonb::Number`, …), states in a comment which clause of the property it checks, and FAILS with your change but PASSES on the unchanged tree. Run it both ways: `cargo test --offline --test seed_A` with the change applied (must fail) and after saving the diff and running `git checkout -- src` (must pass; NEVER use `git stash`: the stash is shared by all worktrees of this repository and other agents work in sibling worktrees — use `git diff -- src > file`, `git checkout -- src`, `git apply file` instead).
  5. Save the change as `{wt}/seed_{{A|B}}.diff` with `git -C {wt} diff -- src > {wt}/seed_A.diff` (paths relative to the repo root, so that `git apply` works in another checkout), and write `{wt}/seed_{{A|B}}.md` with: the property id, one paragraph on what the change does and why it breaks the property, what specific input / sequence / condition is needed for it to manifest, and the exact commands you ran with their observed outcomes.
  6. Restore the tree (`git -C {wt} checkout -- src`) before starting the next one; leave the `tests/seed_*.rs`, `seed_*.diff`, `seed_*.md` files in place (untracked).
 
